@@ -9,7 +9,8 @@ written down here independently of the source:
 
   * the reference rewriting of the property text (``normal_forms``): a pair of occurrences of the unitary tensor that
     shares an index in the same position, that index not being a target index and occurring exactly twice in the
-    term, is replaced by the delta of the two other indices, until no such pair is left; everything else is untouched;
+    term, is replaced by the delta of the two other indices, until no such pair is left; a pair that shares both
+    indices, neither occurring anywhere else, and everything else is untouched;
   * the *value* of the expression for an orthogonal matrix: every model term is evaluated numerically (exact
     rationals, index range {0, 1}, U = ((3/5, -4/5), (4/5, 3/5)), fixed non-symmetric values for the other tensors) for
     every assignment of the target indices, before and after.
@@ -31,8 +32,9 @@ EXPLANATION = (
     "exponent; Expr/Pow/KroneckerDelta/.terms/.sympy/.assumptions/evaluate_deltas modelled as products with merged "
     "exponents that carry their assumptions). For every scenario the result must (1) be one of the normal forms of the "
     "reference rewriting written down from the property (pair of unitary occurrences sharing an index in the same "
-    "position, index not a target, occurring exactly twice -> delta of the two other indices; repeated to the fixed "
-    "point; all other objects, prefactors, exponents, denominators kept), (2) have the same numerical value as the input "
+    "position, index not a target, occurring exactly twice -> delta of the two other indices; a pair that shares BOTH "
+    "indices with neither occurring anywhere else is left untouched (its value is the dimension of the space, not 1); "
+    "repeated to the fixed point; all other objects, prefactors, exponents, denominators kept), (2) have the same numerical value as the input "
     "for an orthogonal 2x2 matrix and every assignment of the target indices (exact rationals), (3) carry the "
     "assumptions of the input expression with no mixing of assumptions on the way. R20a: eligibility guards and delta "
     "indices (first/second position, mixed positions, shared index on a third object / third unitary tensor / provided "
@@ -41,9 +43,10 @@ EXPLANATION = (
     "unitary tensors unchanged, assumptions kept, non-Expr input refused). R20c: bookkeeping (occurrences counted with "
     "exponent multiplicity and denominators, exact tensor name, provided targets instead of Einstein targets, "
     "Term._idx_counter/idx/target/contracted against a direct count, delta evaluation exactly once and only on request, "
-    "on the whole result, with a target set that protects the true targets - also spin-labelled ones). Thorough tier: "
+    "on the whole result, with a target set that protects the true targets - spin-labelled ones and provided targets "
+    "that occur twice included). Thorough tier: "
     "the same three comparisons on every generated term with 2-3 unitary factors over three indices, an optional "
-    "remainder object and optional provided targets.")
+    "remainder object and optional provided targets, each also with delta evaluation requested (value only).")
 ASSUMPTIONS = [
     "bounded: the scenarios listed in the module (thorough: all terms of 2-3 unitary factors over 3 indices with an optional "
     "remainder object of <= 2 indices and <= 1 provided target); one index space, uniform spin per scenario",
@@ -52,11 +55,8 @@ ASSUMPTIONS = [
     "contract (targets = indices on exactly one object of the product if target_idx is None, else get_symbols(target_idx) "
     "which yields spin-less indices for a string; killable index substituted unless protected)",
     "orthogonality is represented by one fixed rational rotation matrix (non-symmetric), dimension 2",
-    "excluded from the decided domain (the library does not preserve the value there, see report): (a) a pair that shares "
-    "BOTH indices (same object squared) whose other index is contracted - the library returns 1 where the value is the "
-    "dimension of the space; (b) evaluate_deltas=True together with provided target indices - the delta evaluation uses the "
-    "Einstein targets of the result and may remove a provided target that occurs twice; (c) terms whose Einstein targets "
-    "change under the rewriting (delta_pp = 1 or delta**2 = delta remove occurrences)",
+    "excluded from the decided domain: terms without provided targets whose Einstein targets change under the rewriting "
+    "(delta_pp = 1 or delta**2 = delta remove occurrences, e.g. U_ki^2 X_i -> X_i)",
 ]
 
 FN = "simplify:simplify_unitary"
@@ -309,6 +309,7 @@ class Run:
         self.sx = Symex(ctx.model, inline=lambda q: True, what=what, attr_hook=self.attr_hook, max_paths=64, hooks={
             "Expr": self.h_expr, "KroneckerDelta": self.h_delta, "Pow": self.h_pow, "evaluate_deltas": self.h_evd,
             "sort_idx_canonical": self.h_sortkey, "get_symbols": self.h_get_symbols})
+        self.sx.strict_names = True   # an undefined name is a NameError of the library, not an external value
 
     # hooks ------------------------------------------------------------------
     def h_expr(self, sx, args, kw):
@@ -487,8 +488,10 @@ def rewrites(d, targets, uname):
             if b.args[1][pos] != p or p in targets or cnt[p] != 2:
                 continue
             q, r = a.args[1][1 - pos], b.args[1][1 - pos]
-            if q == r and q not in targets:
-                raise _OutOfDomain("pair sharing both indices with a contracted second index")
+            if q == r and cnt[q] == 2:
+                # the pair shares BOTH indices and neither occurs anywhere else: delta_qq = 1 would drop the second
+                # index (and, if it is contracted, its sum: the value is the dimension of the space) - left untouched
+                continue
             n = dict(d)
             for t in (a, b):
                 n[t] -= 1
@@ -674,7 +677,12 @@ SCENARIOS = [
     Scenario("not-2d", "R20a", "three-index tensor of that name", "U:kij U:kl", raises="NotImplementedError"),
     Scenario("not-2d-single", "R20a", "one-index tensor of that name", "U:k U:ki U:kj", raises="NotImplementedError"),
     # ---- R20b: how the term is rebuilt
-    Scenario("same-obj", "R20b", "same object twice, other index a target", "U:ki^2", target="i", changed=True),
+    Scenario("same-obj", "R20b", "same object twice, other index also on the remainder", "U:ki^2 X:i", target="i", changed=True),
+    Scenario("same-obj-3", "R20b", "same object twice next to a partner of the other index", "U:ij^2 U:ik", target="k", changed=True),
+    Scenario("square-only", "R20a", "squared unitary tensor whose indices occur nowhere else", "U:ki^2", changed=False),
+    Scenario("square-only-rem", "R20a", "squared unitary tensor whose indices occur nowhere else, remainder", "2 U:ki^2 X:mn", changed=False),
+    Scenario("square-only-target", "R20a", "squared unitary tensor, second index a provided target", "U:ki^2", target="i", changed=False),
+    Scenario("square-second", "R20a", "squared unitary tensor, first index a target on the remainder as well", "U:ki^2 X:k", target="k", changed=True),
     Scenario("same-obj-rem", "R20b", "same object twice among other objects", "X:im U:ki^2 Y:in", target="i", changed=True),
     Scenario("rest", "R20b", "objects before, between and behind the pair, prefactor", "-1/2 X:im U:ki Y:jn U:kj Z:mn^2 W:l^-1", changed=True),
     Scenario("rest-second", "R20b", "objects before, between and behind the pair", "3 X:im U:ik Y:jn U:jk Z:mn", changed=True),
@@ -703,6 +711,10 @@ SCENARIOS = [
     Scenario("evd-spin", "R20c", "delta evaluation requested, spin-labelled target indices", "U:ki U:kj X:l", spin="a", ed=True),
     Scenario("evd-spin-b", "R20c", "delta evaluation requested, spin-labelled indices", "3 U:ik U:jk X:jl Y:m", spin="b", ed=True),
     Scenario("evd-terms", "R20c", "delta evaluation requested, several terms", ["U:ki U:kj X:ij", "2 U:ik U:jk Y:ij"], ed=True),
+    Scenario("evd-provided", "R20c", "delta evaluation requested, provided targets that occur twice", "U:ki U:kj X:i X:j", target="ij", ed=True),
+    Scenario("evd-provided-one", "R20c", "delta evaluation requested, one provided target on the delta", "3 U:ik U:jk X:i Y:jm Z:m", target="i", ed=True),
+    Scenario("evd-provided-spin", "R20c", "delta evaluation requested, provided spin-labelled targets", "U:ki U:kj X:il Y:jl", target="ij", spin="b", ed=True),
+    Scenario("evd-provided-none", "R20c", "delta evaluation requested, provided targets not on the delta", "U:ki U:kj X:il Y:jl", target="l", ed=True),
 ]
 
 
@@ -718,7 +730,7 @@ def scenarios(ctx, rule):
         except _OutOfDomain as e:
             raise AnalysisError(f"C20 scenario {scn.sid} is outside the decided domain: {e}")
         n += 1
-    ctx.floor(rule, "model expressions evaluated", n, {"R20a": 20, "R20b": 12, "R20c": 15}[rule])
+    ctx.floor(rule, "model expressions evaluated", n, {"R20a": 24, "R20b": 13, "R20c": 19}[rule])
 
 
 def r20c_request(ctx):
@@ -822,11 +834,23 @@ def sweep(ctx):
                         bad.setdefault("value", []).append(f"{text} [targets {target}]: foreign factor {e}")
                     if seen != [scn.akey] or run.w.clash:
                         bad.setdefault("assumptions", []).append(f"{text} [targets {target}]")
+                    # the same term with delta evaluation requested: the value must survive
+                    outs = evaluate(ctx, run, scn, fnnode, ed=True)
+                    if len(outs) != 1 or outs[0].kind != "return":
+                        bad.setdefault("result", []).append(text + f" [{target}] [evaluate_deltas]")
+                        continue
+                    got, seen = result_monos(run, outs[0])
+                    try:
+                        if value(got, tg, UNAME) != value(scn.monos(), tg, UNAME):
+                            bad.setdefault("evaluated", []).append(f"{text} [targets {target}] -> {show_monos(got)}")
+                    except _Unknown as e:
+                        bad.setdefault("evaluated", []).append(f"{text} [targets {target}]: foreign factor {e}")
     ctx.floor("R20a", "generated terms evaluated", n, 3000)
     ctx.note(f"sweep: {n} generated terms evaluated, {skipped} outside the decided domain")
     for aspect, fact in (("form", "result is a normal form of the reference rewriting"), ("value", "value unchanged for an orthogonal U"),
-                         ("assumptions", "assumptions kept"), ("result", "a single result")):
-        rule = "R20b" if aspect == "assumptions" else "R20a"
+                         ("assumptions", "assumptions kept"), ("result", "a single result"),
+                         ("evaluated", "value unchanged after the requested delta evaluation")):
+        rule = "R20b" if aspect == "assumptions" else "R20c" if aspect == "evaluated" else "R20a"
         ctx.check(rule, fnnode, aspect not in bad, f"{n} generated terms: {fact}",
                   f"{len(bad.get(aspect, []))} of {n} generated terms: {fact} fails, e.g. {bad.get(aspect, [''])[0]}", key=f"sweep {aspect}")
 
@@ -841,5 +865,5 @@ def run(ctx):
 
 
 def run_thorough(ctx):
-    if ctx.want("R20a") or ctx.want("R20b"):
+    if ctx.want("R20a") or ctx.want("R20b") or ctx.want("R20c"):
         sweep(ctx)
